@@ -94,7 +94,7 @@ class Scratch:
                 if m:
                     guard = 'all(kani, feature = "%s")' % m.group(1)
                 shutil.copy(os.path.join(hdir, f), os.path.join(target_dir, f))
-                decl += '\n#[cfg(%s)]\nmod %s;\n' % (guard, name)
+                decl += '\n#[cfg(%s)]\npub(crate) mod %s;\n' % (guard, name)
                 self.harness_files[name] = os.path.join(target_dir, f)
             with open(decl_file, 'a') as fh:          # add-only: existing lines untouched
                 fh.write(decl)
@@ -437,12 +437,18 @@ def declared_harnesses(prefixes, features=None):
                 continue
             txt = open(os.path.join(root, f)).read()
             m = re.match(r'//\s*requires-feature:\s*(\w+)', txt)
-            if m and (features is None or m.group(1) not in features):
+            if m and m.group(1) not in (features if features is not None else 'approx,std'):
                 continue
-            for m in re.finditer(r'^\s*(?:pub )?fn (\w+)\s*\(\s*\)|^\w+!\(\s*(\w+)\s*,', txt, re.M):
-                n = m.group(1) or m.group(2)
-                if any(n.startswith(p) for p in prefixes):
-                    names.add(n)
+            for line in txt.split('\n'):
+                if line.startswith('macro_rules!'):
+                    continue
+                m = re.match(r'\s*(?:pub(?:\(crate\))? )?fn (\w+)\s*\(\s*\)', line)
+                cands = [m.group(1)] if m else []
+                if re.match(r'\w+!\(', line):
+                    cands += re.findall(r'\b([ct]\d\d_\w+)\b', line)
+                for n in cands:
+                    if any(n.startswith(p) for p in prefixes):
+                        names.add(n)
     return names
 
 
